@@ -208,6 +208,7 @@ var defaultWeights = map[string]int{
 }
 
 type gen struct {
+	seed          uint64
 	tcpShared     bool
 	curPrefSvc    string
 	defBackendOK  map[string]bool
@@ -870,6 +871,7 @@ func GenerateRun(seed uint64, opt GenOptions) (*World, []Op) {
 		g.opt.Avoid = av
 	}
 	g.tcpShared = seed%2 == 0
+	g.seed = seed
 	if g.opt.Hosts == nil {
 		g.opt.Hosts = defaultHosts
 		if g.opt.Sparse {
@@ -975,7 +977,7 @@ func GenerateRun(seed uint64, opt GenOptions) (*World, []Op) {
 	g.emit(mkOpaqueSecret("b", "ca", map[string][]byte{"ca.crt": caPair.Crt}), "")
 	g.emit(mkIngressClass(ingressClassName, controllerName, ""), "")
 	if g.chance(1, 2) {
-		g.emit(mkIngressClass("other", "example.com/other", ""), "")
+		g.emit(mkIngressClass("other", g.foreignController(), ""), "")
 	}
 	g.emit(mkConfigMap(globalConfigMapName, g.genGlobal(g.opt.InitialGlobal, g.pick(4))), "")
 	if g.opt.TCPConfigMap && g.chance(2, 3) {
@@ -1254,6 +1256,14 @@ func (g *gen) genOp(name string) {
 		ncm := mkConfigMap(tcpConfigMapName, g.genTCPServices(cur.Data, 1+g.pick(2)))
 		ncm.UID = cur.UID
 		g.emit(ncm, "tcp services")
+	case "pod_vanish":
+		// the pod object goes away while the Endpoints still lists its address (the endpoints controller
+		// lags behind): legal and transient, only profiles that ask for it get it
+		keys := g.keys(KPod)
+		if len(keys) == 0 {
+			return
+		}
+		g.emitDelete(KPod, keys[g.pick(len(keys))], "pod gone before its endpoint")
 	case "pod_term":
 		keys := g.keys(KPod)
 		if len(keys) == 0 {
@@ -1306,13 +1316,13 @@ func (g *gen) genOp(name string) {
 				n := cur.DeepCopy()
 				n.Generation++
 				if n.Spec.Controller == controllerName {
-					n.Spec.Controller = "example.com/other"
+					n.Spec.Controller = g.foreignController()
 				} else {
 					n.Spec.Controller = controllerName
 				}
 				g.emit(n, "retarget controller")
 			} else {
-				g.emit(mkIngressClass("other", "example.com/other", ""), "create")
+				g.emit(mkIngressClass("other", g.foreignController(), ""), "create")
 			}
 		case 2:
 			if g.objs[KIngressClass]["nonexistent"] == nil {
@@ -1325,7 +1335,7 @@ func (g *gen) genOp(name string) {
 				n := cur.DeepCopy()
 				n.Generation++
 				if n.Spec.Controller == controllerName {
-					n.Spec.Controller = "example.com/other"
+					n.Spec.Controller = g.foreignController()
 				} else {
 					n.Spec.Controller = controllerName
 				}
@@ -1431,6 +1441,7 @@ func historyViolatesAvoid(cfg *RunConfig) string {
 	}
 	g := &gen{rng: rand.New(rand.NewPCG(cfg.Seed, 0x68617073696d)), opt: GenOptions{Avoid: av}, objs: map[string]map[string]client.Object{}, defBackendOK: map[string]bool{}, defBackendSig: map[string]string{}}
 	g.tcpShared = cfg.Seed%2 == 0
+	g.seed = cfg.Seed
 	check := func(kind string, raw json.RawMessage, where string) string {
 		o := decodeObj(kind, raw)
 		if ing, ok := o.(*networking.Ingress); ok {
@@ -1489,4 +1500,13 @@ func (g *gen) genTCPServices(cur map[string]string, n int) map[string]string {
 		data[port] = strings.TrimRight(strings.Join(f, ":"), ":")
 	}
 	return data
+}
+
+// foreignController names the controller of the classes that are not ours: an unrelated one or, in one
+// run in three, the sibling instance a --controller-class=internal deployment runs (our name is its prefix).
+func (g *gen) foreignController() string {
+	if g.seed%3 == 0 {
+		return controllerName + "/internal"
+	}
+	return "example.com/other"
 }
